@@ -7,6 +7,8 @@ class LtlHorizon(LtlAstVisitor):
 
     def __init__(self):
         self.horizons = dict()
+        # duration of one sample (the step of next), in the unit the horizons are expressed in
+        self.sample_step = 1
 
     def visitConstant(self, node, *args, **kwargs):
         out = 0
@@ -167,12 +169,12 @@ class LtlHorizon(LtlAstVisitor):
         return op_horizon
 
     def visitNext(self, node, *args, **kwargs):
-        op_horizon = self.visit(node.children[0], *args, **kwargs) + 1
+        op_horizon = self.visit(node.children[0], *args, **kwargs) + self.sample_step
         self.horizons[node] = op_horizon
         return op_horizon
 
     def visitStrongNext(self, node, *args, **kwargs):
-        op_horizon = self.visit(node.children[0], *args, **kwargs) + 1
+        op_horizon = self.visit(node.children[0], *args, **kwargs) + self.sample_step
         self.horizons[node] = op_horizon
         return op_horizon
 
